@@ -3,6 +3,7 @@ import AasVerif.Model.SdkJson
 import AasVerif.Model.SdkWf
 import AasVerif.Model.Base64
 import AasVerif.Model.XmlText
+import AasVerif.Model.SdkXml
 namespace AasVerif.Drive.C10
 open AasVerif AasVerif.Sdk
 
@@ -258,6 +259,81 @@ def showRes (r : Res Val) : String :=
 
 def b (x : Bool) : String := if x then "1" else "0"
 
+/-! XML trees: `x<ns|!>:<name>:<attrs 0|1>:<text|!>:<tail|!>:<nchildren>` children*;
+oracle table `O<n>` `q<text>:<int|!>:<float repr|!>`* -/
+
+def optDec (s : String) : Option (Option Text) :=
+  if s == "!" then some none else (Text.dec s).map some
+
+mutual
+  partial def pElem : P Elem
+    | s :: r =>
+      if tag s == 'x' then
+        match (body s).splitOn ":" with
+        | [ns, name, a, text, tail, n] => do
+          let ns ← optDec ns
+          let name ← Text.dec name
+          let a ← bit? a
+          let text ← optDec text
+          let tail ← optDec tail
+          let n ← n.toNat?
+          let (cs, r) ← pElems n r
+          some (.mk ns name a text tail cs, r)
+        | _ => none
+      else none
+    | [] => none
+  partial def pElems : Nat → P Elems
+    | 0, r => some (.nil, r)
+    | n + 1, r => do
+      let (e, r) ← pElem r
+      let (es, r) ← pElems n r
+      some (.cons e es, r)
+end
+
+def optEnc : Option Text → String
+  | none => "!"
+  | some t => Text.enc t
+
+def esLen : Elems → Nat
+  | .nil => 0
+  | .cons _ es => esLen es + 1
+
+mutual
+  def sElem : Elem → List String
+    | .mk ns name a text tail cs =>
+      ("x" ++ optEnc ns ++ ":" ++ Text.enc name ++ ":" ++ b a ++ ":" ++ optEnc text ++ ":" ++ optEnc tail
+        ++ ":" ++ toString (esLen cs)) :: sElems cs
+  def sElems : Elems → List String
+    | .nil => []
+    | .cons e es => sElem e ++ sElems es
+end
+
+def pOracleEntry : P (Text × Option Int × Option Text)
+  | s :: r =>
+    if tag s == 'q' then
+      match (body s).splitOn ":" with
+      | [t, i, f] => do
+        let t ← Text.dec t
+        let i ← if i == "!" then some none else (toInt? i).map some
+        let f ← optDec f
+        some ((t, i, f), r)
+      | _ => none
+    else none
+  | [] => none
+
+def pOracle (w : String) : Option PyOracle :=
+  match w.splitOn "," with
+  | s :: r =>
+    if tag s == 'O' then do
+      let n ← (body s).toNat?
+      let (es, r) ← pMany pOracleEntry n r
+      if r.isEmpty then
+        some { int := fun t => (es.find? (fun e => e.1 == t)).bind (fun e => e.2.1),
+               float := fun t => (es.find? (fun e => e.1 == t)).bind (fun e => e.2.2) }
+      else none
+    else none
+  | [] => none
+
 /--
 * `tojson <mm> <val>`              → Json wire
 * `fromjson <mm> <class> <json>`   → `ok <val>` | `err` | `crash:<Exception>`
@@ -265,6 +341,7 @@ def b (x : Bool) : String := if x then "1" else "0"
 * `conforms <mm> <class> <val>`    → `1` | `0`
 * `b64enc <bytes>` / `b64dec <text>` → text / `ok <bytes>` | `err:<kind>`
 * `name <prop|model> <identifier>` → JSON name
+* `toxml <mm> <ns> <val>` → tree; `fromxml <mm> <ns> <class> <oracle> <tree>` → `ok <val>` | `err` | `crash:…`; `blank <text|!>`
 * `xmlesc <text>` → escaped text; `xmlcontent <raw>` → `ok <text>` | `none`
 -/
 def handle : List String → Option String
@@ -295,6 +372,21 @@ def handle : List String → Option String
     | .error .nonAscii => some "err:nonascii"
     | .error .oneChar => some "err:onechar"
     | .error .padding => some "err:padding"
+  | ["toxml", mm, ns, v] => do
+    let mm ← pMM mm
+    let ns ← Text.dec ns
+    let v ← whole pVal v
+    some (",".intercalate (sElem (toXml mm ns v)))
+  | ["fromxml", mm, ns, c, orc, e] => do
+    let mm ← pMM mm
+    let ns ← Text.dec ns
+    let c ← Text.dec c
+    let py ← pOracle orc
+    let e ← whole pElem e
+    some (showRes (fromXml mm ns py c e))
+  | ["blank", t] => do
+    let t ← optDec t
+    some (b (pyBlank t))
   | ["xmlesc", t] => do
     let t ← Text.dec t
     some (Text.enc (XmlText.escape t))
